@@ -247,10 +247,16 @@ def add_loop_spec(fn_text, ordinal, spec, kind=None):
     return fn_text[:o].rstrip() + "\n" + spec.rstrip() + "\n" + fn_text[o:]
 
 
+def _hit(needle, line):
+    if hasattr(needle, "search"):
+        return needle.search(line) is not None
+    return needle in line
+
+
 def insert_before_line(text, needle, ghost, occurrence=0, expect_count=None):
-    """Insert ghost text on its own lines before the line containing `needle`."""
+    """Insert ghost text on its own lines before the line containing `needle` (str or compiled regex)."""
     lines = text.split("\n")
-    hits = [i for i, l in enumerate(lines) if needle in l]
+    hits = [i for i, l in enumerate(lines) if _hit(needle, l)]
     if expect_count is not None and len(hits) != expect_count:
         raise LostAnchor("needle %r: %d hits, expected %d" % (needle, len(hits), expect_count))
     if len(hits) <= occurrence:
@@ -262,7 +268,7 @@ def insert_before_line(text, needle, ghost, occurrence=0, expect_count=None):
 
 def insert_after_line(text, needle, ghost, occurrence=0, expect_count=None):
     lines = text.split("\n")
-    hits = [i for i, l in enumerate(lines) if needle in l]
+    hits = [i for i, l in enumerate(lines) if _hit(needle, l)]
     if expect_count is not None and len(hits) != expect_count:
         raise LostAnchor("needle %r: %d hits, expected %d" % (needle, len(hits), expect_count))
     if len(hits) <= occurrence:
